@@ -329,10 +329,19 @@ func run(c *common.Ctx) *common.Result {
 				return
 			}
 			cnt := map[string]int64{}
+			lpartial := map[rmask]desc{}
 			defer func() {
 				for k, n := range cnt {
 					res.Add(k, n)
 				}
+				gmu.Lock()
+				for m, d := range lpartial {
+					global = global.and(m)
+					if old, ok := partial[m]; !ok || keyLess(d.key(), old.key()) {
+						partial[m] = d
+					}
+				}
+				gmu.Unlock()
 			}()
 			depthKey := strconv.Itoa(sp.depth)
 			maxLog := int64(0)
@@ -377,12 +386,9 @@ func run(c *common.Ctx) *common.Result {
 					continue
 				}
 				if v.Mask != full {
-					gmu.Lock()
-					global = global.and(v.Mask)
-					if old, ok := partial[v.Mask]; !ok || keyLess(d.key(), old.key()) {
-						partial[v.Mask] = d
+					if old, ok := lpartial[v.Mask]; !ok || keyLess(d.key(), old.key()) {
+						lpartial[v.Mask] = d
 					}
-					gmu.Unlock()
 				}
 			}
 		})
